@@ -43,7 +43,10 @@ RECURSIVE CatToks(_)
 CatToks(ls) == IF ls = <<>> THEN <<>> ELSE ls[1].ts \o CatToks(Tail(ls))
 Count(ts, T) == Len(SelectSeq(ts, LAMBDA t : t \in T))
 \* more block openers than @end: some block is not closed
-Unclosed(ts) == Count(ts, {"IF", "EACH", "FOR"}) > Count(ts, {"END"})
+\* A block-form @insert("n") opens a block too, but the parser lets any closer of an enclosing construct end it, so
+\* counting is not sound for it; an input that ENDS with the header of a block-form insert is certainly unterminated.
+EndsWithBlockInsert(ts) == LET n == Len(ts) IN n >= 4 /\ ts[n - 3] = "INSERT" /\ ts[n - 2] = "LPAREN" /\ ts[n - 1] = "STR" /\ ts[n] = "RPAREN"
+Unclosed(ts) == Count(ts, {"IF", "EACH", "FOR"}) > Count(ts, {"END"}) \/ EndsWithBlockInsert(ts)
 Base == IF LexSet = "small" THEN Small ELSE Closed
 MCInputs == {[toks |-> CatToks(q), incode |-> FALSE, open |-> Unclosed(CatToks(q)), src |-> CatSrc(q)] : q \in SeqsUpTo(Base, MaxLex)}
        \cup {[toks |-> CatToks(q) \o o.ts, incode |-> InCodeAfter(o), open |-> TRUE, src |-> CatSrc(q) \o o.src] :
